@@ -354,6 +354,44 @@ func init() {
 			fail("deleteCalcChain: filter function literal")
 		}
 		fmt.Fprintf(w, "def deleteCalcChainFilter : String := %s\n", leanStr(ccFilter))
+		// adjustCalcChain: entries AT the edit position move with their cells (`<=`)
+		incl := "false"
+		if fd := funcDecl("File", "adjustCalcChain"); fd != nil {
+			body := src(fd.Body)
+			if strings.Contains(body, "dir == rows && num <= rowNum") && strings.Contains(body, "dir == columns && num <= colNum") {
+				incl = "true"
+			}
+			for _, pat := range []string{"if c.I != sheetID {", "offset == -1", "f.deleteCalcChain(c.I, c.R)", "adjustCellName(c.R, dir, colNum, rowNum, offset)"} {
+				if !strings.Contains(body, pat) {
+					fail("adjustCalcChain: skeleton `%s`", pat)
+				}
+			}
+		} else {
+			fail("func (*File) adjustCalcChain")
+		}
+		fmt.Fprintf(w, "def calcChainShiftInclusive : Bool := %s\n", incl)
+		// AddPictureFromBytes reuses an image relationship with the same target inside one drawing;
+		// DeletePicture skips the drawing's own relationships when it looks for other users
+		reused := "false"
+		if fd := funcDecl("File", "AddPictureFromBytes"); fd != nil {
+			body := src(fd.Body)
+			if strings.Contains(body, "rel.Type == SourceRelationshipImage && rel.Target == mediaStr") && strings.Contains(body, "if drawingRID == 0 {") {
+				reused = "true"
+			}
+		} else {
+			fail("func (*File) AddPictureFromBytes")
+		}
+		fmt.Fprintf(w, "def pictureRelReused : Bool := %s\n", reused)
+		if fd := funcDecl("File", "DeletePicture"); fd != nil {
+			body := src(fd.Body)
+			for _, pat := range []string{"if k.(string) == drawingRels {", "if !used {", "f.deleteDrawingRels(drawingRels, rID)"} {
+				if !strings.Contains(body, pat) {
+					fail("DeletePicture: skeleton `%s`", pat)
+				}
+			}
+		} else {
+			fail("func (*File) DeletePicture")
+		}
 		// shared strings: how the index of a new item is computed
 		sstFacts := func(fn string, pats ...string) {
 			fd := funcDecl("File", fn)
